@@ -630,6 +630,18 @@ fn run_interop(plan: &Plan, lib: &dyn Lib, rec: &mut Rec) {
         let out = rec.call(lib, g, Op::Verify, &[&want_bytes, &pk_bytes, &msg]);
         rec.expect("C03", "library-accepts-reference-signature", out.is_ok(), || format!("lib-verify scheme={} g={} | the library rejects a signature made by the reference: {:?}", scheme_name(s as u8), g.name(), out));
     }
+    // a message that begins with the signer's own compressed public key (what an "already augmented?" shortcut
+    // would mis-handle), and one that begins with another key's bytes
+    for (what, m2) in [("own-pk-prefixed", { let mut m = pk_bytes.clone(); m.extend_from_slice(&msg); m }), ("own-pk-only", pk_bytes.clone())] {
+        for s in Scheme::ALL {
+            let want = refimpl::layout::tagged(s as u8, &b.sign(s, &sk, &m2).to_bytes());
+            let got = rec.call(lib, g, Op::Sign, &[&sk_bytes, &[s as u8], &m2]);
+            rec.case(&[3, g as u64, s as u64, what.len() as u64, 55], true);
+            rec.expect("C03", "signature-equals-reference", got.first() == Some(want.as_slice()), || format!("sign {} scheme={} g={} | library signature differs from the draft's CoreSign", what, scheme_name(s as u8), g.name()));
+            let out = rec.call(lib, g, Op::Verify, &[&want, &pk_bytes, &m2]);
+            rec.expect("C03", "library-accepts-reference-signature", out.is_ok(), || format!("lib-verify {} scheme={} g={} | the library rejects the reference's signature: {:?}", what, scheme_name(s as u8), g.name(), out));
+        }
+    }
     // proof of possession
     let pop_ref = b.pop_prove(&sk);
     let pop = rec.call(lib, g, Op::Pop, &[&sk_bytes]);
@@ -671,6 +683,16 @@ fn run_interop(plan: &Plan, lib: &dyn Lib, rec: &mut Rec) {
     let out = rec.call(lib, g, Op::AggVerify, &va);
     let exp = b.aggregate_verify(s, &pairs, &agg_ref);
     rec.expect("C03", "aggregate-verify-equals-reference", out.is_ok() == exp, || format!("aggregate-verify scheme={} n={} repeated_adjacent={} g={} | library says {}, the draft's AggregateVerify says {}", scheme_name(s as u8), n, repeat_adjacent, g.name(), out.kind(), exp));
+    // same-message accumulation (the draft's Aggregate of signatures / sum of keys), with a signer listed twice
+    let ms = *x.pick(&[Scheme::Basic, Scheme::Pop]);
+    let sk2 = refimpl::keygen(&[9, (plan.seed & 0xff) as u8]);
+    let (s1, s2) = (b.sign(ms, &sk, &msg), b.sign(ms, &sk2, &msg));
+    let enc = |p: &Pt| refimpl::layout::tagged(ms as u8, &p.to_bytes());
+    let acc = rec.call(lib, g, Op::MultiSig, &[&enc(&s1), &enc(&s2), &enc(&s1)]);
+    rec.expect("C03", "aggregate-equals-reference", acc.first() == Some(enc(&s1.add(&s2).add(&s1)).as_slice()), || format!("multi-signature repeated-signer scheme={} g={} | accumulation of [s1, s2, s1] is not the draft's Aggregate (2*s1 + s2)", scheme_name(ms as u8), g.name()));
+    let pk2 = b.sk_to_pk(&sk2);
+    let mpk = rec.call(lib, g, Op::MultiPk, &[&pk_bytes, &pk2.to_bytes(), &pk_bytes]);
+    rec.expect("C03", "aggregate-equals-reference", mpk.first() == Some(pk_ref.add(&pk2).add(&pk_ref).to_bytes().as_slice()), || format!("multi-key repeated-signer g={} | accumulated key of [pk1, pk2, pk1] is not 2*pk1 + pk2", g.name()));
     rec.sample(|| format!("g={} key_class={} seed_len={} msg_len={} agg n={} scheme={}", g.name(), kc, seed_len, msg.len(), n, scheme_name(s as u8)));
     c.finish(rec);
 }
